@@ -89,3 +89,44 @@ Print Assumptions C13_sig_exists_reader_model.
 Print Assumptions C13_sig_exists_never_absent.
 Print Assumptions C13_linked_log_record_model.
 Print Assumptions C13_linked_log_walk_model.
+
+(* ================================================================ the entry loader itself, TRANSLATED
+   compactindexsized (Bucket).loadEntry and (BucketDescriptor).unmarshalEntry are re-translated from /repo's working
+   tree on every check (Generated/GoLiteC13.v; DESIGN.md section 10a).  For EVERY positioned reader of the bucket's
+   entries (an oracle [rd off len] giving the bytes delivered — at most len — and the error value): a complete read
+   yields exactly the entry decoded from those bytes, and a read that delivers fewer bytes than the stride yields
+   the reader's error and never an entry — the code-level form of "a short read is an error, not 'not found'". *)
+Require YF.GoLite YF.Generated.GoLiteC13 YF.GoLiteC13_Load.
+Import ZArith String.
+
+Theorem C13_translated_loadEntry_complete_or_readers_error :
+  forall (rd : Z -> Z -> list Z * GoLite.val), (forall off len, (0 <= len)%Z -> (GoLite.zlen (fst (rd off len)) <= len)%Z) ->
+  forall fuel hl stride ow rest entries (i : Z),
+  (0 <= hl)%Z -> (0 <= ow)%Z -> (hl + ow <= stride)%Z -> (stride <= 255)%Z -> (0 <= i < 36028797018963968)%Z -> 2 <= fuel ->
+  GoLite.call GoLiteC13.prog (GoLiteC13_Load.ext_sr rd) fuel "Bucket.loadEntry"%string
+    [GoLiteC13_Load.bucket_val hl stride ow rest entries; GoLite.VInt i] =
+  let '(bs, e) := rd (i * stride)%Z stride in
+  if (GoLite.zlen bs =? stride)%Z
+  then GoLite.RRet (GoLite.VTuple [GoLiteC13_Load.entry_val (GoLite.le_value (firstn 8 (GoLite.slice_z bs 0 hl)))
+                                                           (GoLite.slice_z bs hl (hl + ow)); GoLite.VNil])
+  else GoLite.RRet (GoLite.VTuple [GoLiteC13_Load.entry_val 0%Z []; e]).
+Proof.
+  exact (GoLiteC13_Load.loadEntry_spec GoLiteC13.prog GoLiteC13.prog_uintLe GoLiteC13.prog_BucketDescriptor_unmarshalEntry
+           GoLiteC13.prog_Bucket_loadEntry).
+Qed.
+
+(* non-vacuity: the translated loader RUNS in the kernel over a 2-entry bucket (stride 5 = 3 hash bytes + 2 value
+   bytes): entry 1 is decoded, entry 2 lies beyond the (truncated) data and yields the reader's error *)
+Example C13_translated_loadEntry_runs :
+  let data := [1; 0; 0; 10; 11; 2; 0; 0; 20; 21; 3; 0]%Z in
+  let rd := fun off len : Z => let bs := firstn (Z.to_nat len) (skipn (Z.to_nat off) data) in
+                               (bs, if (GoLite.zlen bs <? len)%Z then GoLite.VErr "io.EOF"%string else GoLite.VNil) in
+  GoLite.call GoLiteC13.prog (GoLiteC13_Load.ext_sr rd) 3 "Bucket.loadEntry"%string
+    [GoLiteC13_Load.bucket_val 3 5 2 [] GoLite.VNil; GoLite.VInt 1%Z]
+  = GoLite.RRet (GoLite.VTuple [GoLiteC13_Load.entry_val 2%Z [20; 21]%Z; GoLite.VNil]) /\
+  GoLite.call GoLiteC13.prog (GoLiteC13_Load.ext_sr rd) 3 "Bucket.loadEntry"%string
+    [GoLiteC13_Load.bucket_val 3 5 2 [] GoLite.VNil; GoLite.VInt 2%Z]
+  = GoLite.RRet (GoLite.VTuple [GoLiteC13_Load.entry_val 0%Z []; GoLite.VErr "io.EOF"%string]).
+Proof. vm_compute. split; reflexivity. Qed.
+
+Print Assumptions C13_translated_loadEntry_complete_or_readers_error.
